@@ -1,4 +1,5 @@
 import Verif.Proofs.Move
+import Verif.Proofs.MoveModel
 
 /-!
 # C01 — the naming move of Flatten preserves the meaning of the API (proved for all documents)
@@ -44,6 +45,31 @@ theorem naming_move_preserves_meaning (S : Setting) (ht : S.TargetsOK) (hr : S.r
   · intro n t hc hm
     apply S.move_preserves ht hr hops hst n
     exact Or.inr (Or.inr ⟨rfl, rfl, t, rfl, rfl, hc, hm⟩)
+
+/-- **The move theorem speaks about the model of `InlineSchemaNamer.Name`.**  One iteration of `Name` in the phase
+    model (`Flatten.nameWith`: unique name, `RewriteSchemaToRef`, save the clone, re-target the dependents, book-keeping),
+    run on the schema of a setting, under the name and `$ref` string of that setting, in a document in which no `$ref`
+    depends on the place being named (`NoDependents`: no anonymous pointer leads to it — the common case of full
+    flattening), returns exactly the document `S.d2` of the move; hence it preserves the meaning of every allowed
+    position and moves the meaning of the inside of the schema under the new definition.  What this does not cover:
+    the re-targeting of dependents (a second kind of move, validated per run by the certificate checker). -/
+theorem nameWith_preserves_meaning (S : Setting) (fc : Facts) (x : Flatten.Ext) (o : Flatten.Opts) (st st' : Flatten.St)
+    (key : String) (parts : List String) (name : String)
+    (h : Flatten.nameWith fc x o st key (.obj S.sch) parts name = .ok st')
+    (hdoc : st.doc = .obj S.kvs) (hkey : Replace.keyTokens key = S.toks)
+    (hloc : S.loc = .str (Flatten.genLocation parts))
+    (hname : ∀ nr, Flatten.getNR key st'.ctx.newRefs = some nr →
+      nr.newName = S.n ∧ nr.path = Str.join ["#/definitions", S.n])
+    (href : x.mkRef (Str.join ["#/definitions", S.n]) = some S.r)
+    (hnodep : Proofs.MoveModel.NoDependents fc x key (Str.join ["#/definitions", S.n]) S.d2)
+    (ht : S.TargetsOK) (hr : S.r ≠ "") (hops : Nat) (hst : Setting.Stable S.b1 hops) :
+    st'.doc = S.d2 ∧
+    (∀ n (p : Pos), (p.1 ≠ "" ∨ (p.1 = "" ∧ Allowed S.toks S.n p.2)) →
+      unfold S.b1 hops n p = unfold S.b2 (hops + 1) n p) ∧
+    (∀ n (t : List String), AllCanon t → (∀ k t', t = k :: t' → k ≠ marker) →
+      unfold S.b1 hops n ("", S.toks ++ t) = unfold S.b2 (hops + 1) n ("", defn S.n ++ t)) :=
+  ⟨Proofs.MoveModel.nameWith_is_the_move S fc x o st st' key parts name h hdoc hkey hloc hname href hnodep,
+   naming_move_preserves_meaning S ht hr hops hst⟩
 
 /-- `replace.RewriteSchemaToRef` (model) is the `setAt` of the setting: what the move theorem calls
     "leave a `$ref` node at `toks`" is what the primitive does -/
